@@ -70,6 +70,9 @@ func (g *StoreOps) bytes() []byte {
 	for i := range b {
 		b[i] = byte('a' + r.Intn(26))
 	}
+	if r.Intn(8) == 0 { // plain values that merely LOOK like a set_sum-tagged value
+		b = append([]byte([]string{"set:", "sum:"}[r.Intn(2)]), b...)
+	}
 	return b
 }
 
